@@ -202,7 +202,7 @@ func among(texts ...string) func(g *ref.Game, mv ref.Move) bool {
 func checkC08(c *harness.Check) {
 	mustAnchors(c)
 	depth := c.Pick(8, 10)
-	c.Rule = fmt.Sprintf("all operation words of length <= %d over {push m (root-specific alphabet of <=4 moves incl. castling, e.p., promotion, captures, shuffles), pop (never below a fork point), fork (<=3 live boards), switch i}; every word is replayed on fresh real boards and after its last operation EVERY live board's getters (position, side, clock, ply, full moves, has-castled x2, last and second-to-last move, HasMoved(1/2/all), hash vs scratch, not-drawn result) are compared with the reference multi-board model; after a push the draw oracle of C05 runs on that board. distinct_nontrivial = distinct canonical states (sorted model snapshots of all live boards)", depth)
+	c.Rule = fmt.Sprintf("all operation words of length <= %d over {push m (root-specific alphabet of <=4 moves incl. castling, e.p., promotion, captures, shuffles), pop (never below a fork point), fork (<=3 live boards), switch i}; every word is replayed on fresh real boards and after its last operation EVERY live board's getters (position, side, clock, ply, full moves, has-castled x2, last and second-to-last move, HasMoved(1/2/all), hash vs scratch, not-drawn result) are compared with the reference multi-board model; after a push the draw oracle of C05 runs on that board. The forks an engine hands out (Engine.Board) on seven games incl. drawn ones: moves, take-backs and adjudication on them leave the engine's game untouched and vice versa. distinct_nontrivial = distinct canonical states (sorted model snapshots of all live boards)", depth)
 	roots := []c08root{
 		{"k7/p7/P7/8/8/7p/7P/7K w - - 0 1", among("h1g1", "g1h1", "a8b8", "b8a8"), "shuffle: repetition across forks"},
 		{"r3k2r/8/8/8/8/8/8/R3K2R w KQkq - 0 1", among("e1g1", "e1c1", "e8g8", "e8c8", "h1g1", "a8b8", "g1h1", "b8a8"), "castling flags"},
@@ -283,6 +283,7 @@ func checkC08(c *harness.Check) {
 		}
 		rec(j.word)
 	})
+	engineForks(c)
 	c.Finish()
 }
 
